@@ -6,7 +6,7 @@ from hypothesis import strategies as st
 
 from vlib import gen, gen_ops
 from vlib.build import Flavour, build
-from vlib.core import Part
+from vlib.core import Part, optimized_part
 from vlib.invariants import structural
 from vlib.observe import Uids, kind_of, snapshot, walk
 from vlib.ops import Engine, engine_known, flush_excluded
@@ -324,4 +324,5 @@ def hyp_cases(draw, tier):
 
 PARTS = [
     Part("copies", run, strategy=hyp_cases, n={"quick": 1200, "thorough": 200000}),
+    optimized_part("C07", ['copies']),
 ]
